@@ -218,6 +218,7 @@ DRIVES = {
     "arity": dict(comps=["A", "B", "C", "R", "S", "F1", "F2", "F3", "F4", "F5", "F6", "F7"], maxent=10,
                   extra=dict(arity=True, grid=50, typedobs=True, observers=3, queries=2),
                   quick=dict(count=120, len=250), thorough=dict(count=3000, len=400)),
+    "rich": dict(comps=["A", "P", "Q"], maxent=14, extra=dict(grid=30), quick=dict(count=120, len=250), thorough=dict(count=2500, len=400)),
     "mem": dict(comps=["A", "P", "Q"], maxent=24, extra=dict(mem=True, gcstress=True, resetp=10), quick=dict(count=120, len=300), thorough=dict(count=2500, len=500)),
     "mem64": dict(comps=["P", "B", "Q"], maxent=150, extra=dict(mem=True, gcstress=True), quick=dict(count=40, len=900), thorough=dict(count=600, len=1500)),
     "big": dict(comps=["A", "B"], maxent=260, extra=dict(batchn=90, mem=True), quick=dict(count=30, len=250), thorough=dict(count=400, len=500)),
@@ -242,7 +243,7 @@ CELLS = {
 PLANS = {
     "C01": [("core", ["typed1", "unsafe1", "exch8", "typed11", "typedfill", "mapt1"]), ("rel", ["typed1", "unsafe2", "mapt1"]),
             ("drive:wide", ["typed1", "unsafe2", "exch8", "mapt42"]), ("drive:plain", ["typed11", "unsafe1"]),
-            ("drive:big", ["typed1", "unsafe3"])],
+            ("drive:big", ["typed1", "unsafe3"]), ("drive:rich", ["typed1", "unsafe2"])],
     "C02": [("core", ["typed1", "unsafe1"]), ("rel", ["typed11", "unsafe1"]), ("drive:wide", ["typed1", "unsafe2"]),
             ("drive:rel2", ["typed11", "unsafe1"]), ("dump", ["typed1", "unsafe2"]), ("drive:reset", ["typed1", "unsafe2"])],
     "C03": [("core", ["typed1", "unsafe1", "typedfill"]), ("rel", ["typed1", "unsafe1", "typed11"]), ("cache", ["typed1"]),
@@ -265,7 +266,7 @@ PLANS["C09"] = [("obs", ["typed1", "unsafe2", "typed11", "mapt1"]), ("drive:obs"
 PROP_CFG["C08"] = (dict(probes=1), dict(probes=2))
 PROP_CFG["C09"] = (dict(probes=1), dict(probes=2))
 PLANS["C06"] = [("batch", ["typed1", "typed11", "exch8", "typed53"]), ("drive:wide", ["typed1", "exch8", "typed53"]),
-                ("drive:rel2", ["typed11", "typed1"])]
+                ("drive:rel2", ["typed11", "typed1"]), ("drive:rich", ["typed1", "exch8"])]
 PLANS["C19"] = [("statsmodel", []), ("core", ["typed1", "unsafe1"]), ("cache", ["typed1", "unsafe2"]),
                 ("drive:wide", ["typed1", "unsafe2", "typed53"]), ("drive:lock", ["typed1", "unsafe1"]), ("drive:obs", ["typed11"])]
 PROP_CFG["C19"] = (dict(probes=1, stats=True), dict(probes=2, stats=True))
@@ -1355,7 +1356,8 @@ def check_c18(ctx):
     runs = 2 if quick else 12
     for tag, b in bins.items():
         for ci, caps in enumerate([[1], [4, 2], [1024]]):
-            cfg = dict(path="unsafe", caps=caps, comps=[], seed=ctx.seed * 100 + ci)
+            # (typed: mappers, a filter and an exchange created before the registry is filled are used throughout)
+            cfg = dict(path="unsafe" if ci == 2 else "typed", caps=caps, comps=[], seed=ctx.seed * 100 + ci)
             lp = os.path.join(d, "log-%s-%d.ndjson" % (tag or "default", ci))
             jobs.append(([b, "-registry", str(runs), "-len", "80", "-out", lp, "-cfg", json.dumps(cfg)], cfg, lp,
                          "%s/caps%s" % (tag or "default", caps)))
